@@ -71,7 +71,7 @@ class FnScan(ast.NodeVisitor):
             return e.id in self.setvars
         if isinstance(e, ast.Call):
             f = e.func
-            if isinstance(f, ast.Name) and f.id in SET_CALLS:
+            if isinstance(f, ast.Name) and (f.id in SET_CALLS or f.id in SET_RETURNING_FUNCS):
                 return True
             if isinstance(f, ast.Attribute) and f.attr in SET_METHODS and self.is_set(f.value):
                 return True
@@ -165,10 +165,32 @@ class FnScan(ast.NodeVisitor):
         return False
 
 
+def discover_set_returning(mod):
+    """names of the functions / methods of the module that return a set: a `-> set[...]` annotation, or a `return` of a set display /
+    set() call / set comprehension / a local name assigned one (found by the same local typing).  Their call sites are set-typed."""
+    found = set()
+    fns = [n for n in ast.walk(mod) if isinstance(n, ast.FunctionDef)]
+    for _ in range(2):            # second pass: functions returning the result of another set-returning function
+        for fn in fns:
+            if fn.name in found:
+                continue
+            if is_set_annotation(fn.returns):
+                found.add(fn.name)
+                continue
+            SET_RETURNING_FUNCS.update(found)
+            sc = FnScan(fn, "")
+            for n in walk_local(fn):
+                if isinstance(n, ast.Return) and n.value is not None and sc.is_set(n.value):
+                    found.add(fn.name)
+                    break
+    return found
+
+
 def sites(repo):
     out = []
     for f in FILES:
         mod = ast.parse(open(os.path.join(repo, f)).read())
+        SET_RETURNING_FUNCS.update(discover_set_returning(mod))
         for n in ast.walk(mod):
             if isinstance(n, ast.FunctionDef):
                 # nested functions are scanned as part of their parent (they share its set-typed names)
